@@ -75,6 +75,7 @@ func c07Run(c *hx.Ctx) {
 	}
 	jlsKernels(c, n)
 	jlsRunSegments(c, 2*n)
+	jlsScans(c, n/2)
 
 	// every NEAR value is visited (at the smallest precision that admits it and at a random larger one)
 	for near := 0; near <= 255; near++ {
